@@ -28,6 +28,7 @@ type c15Op struct {
 }
 
 type c15Spec struct {
+	pkt     int // client packet size and server maximum payload (0: 2 bytes / default): reads and writes of that size are single-packet operations
 	partial int // the store's first reads deliver half and a transient error (those reads may fail; the rest must still be linearizable)
 	server  string
 	alloc   bool
@@ -36,6 +37,14 @@ type c15Spec struct {
 }
 
 const c15Init = "wxyz"
+
+// c15InitFor: the initial content (one packet of 'w' when the packet size is large)
+func c15InitFor(s c15Spec) string {
+	if s.pkt > 0 {
+		return strings.Repeat("w", s.pkt)
+	}
+	return c15Init
+}
 
 func c15Scenario(s c15Spec) explore.Scenario {
 	return func() (func(), func(*vsched.Exec) explore.Verdict) {
@@ -52,22 +61,28 @@ func c15Scenario(s c15Spec) explore.Scenario {
 			case "rs":
 				h = newVHandler(false) // atomic backing-store operations (the property's precondition)
 				f := h.file("/f", true)
-				f.data = []byte(c15Init)
+				f.data = []byte(c15InitFor(s))
 				f.PartialReads = s.partial
 				var opts []RequestServerOption
 				if s.alloc {
 					opts = append(opts, WithRSAllocator())
 				}
+				if s.pkt > 0 {
+					opts = append(opts, WithRSMaxTxPacket(uint32(s.pkt)))
+				}
 				rs := NewRequestServer(conn, h.handlers(), opts...)
 				serve = rs.Serve
 			case "os":
 				root = scratchDir()
-				os.WriteFile(filepath.Join(root, "f"), []byte(c15Init), 0o644)
+				os.WriteFile(filepath.Join(root, "f"), []byte(c15InitFor(s)), 0o644)
 				var opts []ServerOption
 				if s.alloc {
 					opts = append(opts, WithAllocator())
 				}
 				opts = append(opts, WithServerWorkingDirectory(root))
+				if s.pkt > 0 {
+					opts = append(opts, WithMaxTxPacket(uint32(s.pkt)))
+				}
 				sv, err := NewServer(conn, opts...)
 				if err != nil {
 					panic(err)
@@ -78,7 +93,11 @@ func c15Scenario(s c15Spec) explore.Scenario {
 				serve()
 				s2c.CloseWrite()
 			})
-			c, err := NewClientPipe(s2c, c2s, MaxPacketUnchecked(2), MaxConcurrentRequestsPerFile(2))
+			cpkt := 2
+			if s.pkt > 0 {
+				cpkt = s.pkt
+			}
+			c, err := NewClientPipe(s2c, c2s, MaxPacketUnchecked(cpkt), MaxConcurrentRequestsPerFile(2))
 			if err != nil {
 				bad = append(bad, "NewClientPipe: "+err.Error())
 				c2s.CloseWrite()
@@ -131,7 +150,7 @@ func c15Scenario(s c15Spec) explore.Scenario {
 							}
 							op.Data = o.data
 						case "read":
-							b := make([]byte, 2)
+							b := make([]byte, max(2, s.pkt))
 							n, err := f.ReadAt(b, int64(o.off))
 							if err != nil && s.partial > 0 {
 								continue // the store failed this read: it returns an error and is not part of the history
@@ -139,7 +158,7 @@ func c15Scenario(s c15Spec) explore.Scenario {
 							if err != nil {
 								bad = append(bad, fmt.Sprintf("ReadAt(%d): %v", o.off, err))
 							}
-							op.N, op.Data = 2, string(b[:n])
+							op.N, op.Data = len(b), string(b[:n])
 						case "write":
 							n, err := f.WriteAt([]byte(o.data), int64(o.off))
 							if err != nil || n != len(o.data) {
@@ -180,7 +199,15 @@ func c15Scenario(s c15Spec) explore.Scenario {
 			// the outcome fingerprint ignores timestamps: results only
 			var rs []string
 			for _, o := range hist {
-				rs = append(rs, fmt.Sprintf("c%d:%s(%d)=%s/%d", o.Client, o.Kind, o.Off, o.Data, o.N))
+				d := o.Data
+				if len(d) > 64 { // large packets: first byte, last byte and the position of the first change
+					k := 0
+					for k < len(d) && d[k] == d[0] {
+						k++
+					}
+					d = fmt.Sprintf("%c..%c(len %d, first change at %d)", d[0], d[len(d)-1], len(d), k)
+				}
+				rs = append(rs, fmt.Sprintf("c%d:%s(%d)=%s/%d", o.Client, o.Kind, o.Off, d, o.N))
 			}
 			v := explore.Verdict{Outcome: strings.Join(rs, " "), Sample: map[string]any{"history": hs}}
 			if e.Deadlock {
@@ -194,14 +221,21 @@ func c15Scenario(s c15Spec) explore.Scenario {
 				v.Bad, v.Key = "Close: "+closeErr.Error(), "c15-close"
 				return v
 			}
-			if !lin.Linearizable(c15Init, hist) {
-				v.Bad = "history is not linearizable w.r.t. a plain byte-array file (initial " + c15Init + "):\n  " + strings.Join(hs, "\n  ")
+			if !lin.Linearizable(c15InitFor(s), hist) {
+				v.Bad = "history is not linearizable w.r.t. a plain byte-array file (initial " + c15Clip(c15InitFor(s)) + "):\n  " + c15Clip(strings.Join(hs, "\n  "))
 				v.Key = "c15-not-linearizable:" + s.server
 			}
 			return v
 		}
 		return body, judge
 	}
+}
+
+func c15Clip(s string) string {
+	if len(s) > 1500 {
+		return s[:700] + " ... " + s[len(s)-700:]
+	}
+	return s
 }
 
 func c15Specs(set, server string, alloc bool) []c15Spec {
@@ -228,6 +262,10 @@ func c15Specs(set, server string, alloc bool) []c15Spec {
 		b := mk(1, []c15Op{r(0, 0)}, []c15Op{w(0, "ab", 0)}, []c15Op{w(1, "cd", 0)})
 		b.partial = 1
 		return []c15Spec{a, b}
+	case "bigpkt": // a packet size above the 32 KiB default on both sides: a 40000-byte read or write is still one packet, hence atomic
+		a := mk(2, []c15Op{r(0, 0)}, []c15Op{w(0, strings.Repeat("B", 40000), 1)})
+		a.pkt = 40000
+		return []c15Spec{a}
 	case "pos": // operations at the File's own position, issued by goroutines that share the File
 		pr := func(h int) c15Op { return c15Op{kind: "pread", handle: h} }
 		pw := func(d string, h int) c15Op { return c15Op{kind: "pwrite", data: d, handle: h} }
@@ -310,6 +348,8 @@ func init() {
 					j("rs W=2 store read fails part-way db3", "instr-w2", "rs", "partial", 3, 600, false),
 					j("rs W=2 Read/Write at the shared File position db3", "instr-w2", "rs", "pos", 3, 600, false),
 					j("os W=2 Read/Write at the shared File position db3", "instr-w2", "os", "pos", 3, 600, false),
+					j("rs W=2 one-packet read || one-packet write of 40000 bytes db3", "instr-w2", "rs", "bigpkt", 3, 600, false),
+					j("os W=2 one-packet read || one-packet write of 40000 bytes db2", "instr-w2", "os", "bigpkt", 2, 600, false),
 				}, func(j reg.Job) bool { return j.Args["server"] != "os" })
 			}
 			return withPolicies(tier, []reg.Job{
@@ -318,6 +358,7 @@ func init() {
 				j("os W=2 2x1 db2 alloc", "instr-w2", "os", "2x1", 2, 60, true),
 				j("rs W=2 store read fails part-way db2", "instr-w2", "rs", "partial", 2, 100, false),
 				j("rs W=2 Read/Write at the shared File position db2", "instr-w2", "rs", "pos", 2, 100, false),
+				j("rs W=2 one-packet read || one-packet write of 40000 bytes db2", "instr-w2", "rs", "bigpkt", 2, 100, false),
 			}, func(j reg.Job) bool { return j.Args["server"] != "os" })
 		},
 	})
